@@ -100,7 +100,10 @@ package api
 //@   modifies nothing
 
 //@ func AddParamsFromQuery
-//@   property C11 C12
+//@   property C11 C12 C13
+// an add never rides on another pin: a pin-update value in the query is dropped (the adder's pins carry the allocations
+// the blocks were sent to; as an update they would be replaced by a copy of the other pin)
+//@   ensures [add-is-never-an-update-of-another-pin] err == nil ==> res.PinUpdate == cid.Undef
 //@   ensures err != nil ==> res == nil
 //@   ensures err == nil ==> res != nil && fresh(res)
 // "refused as malformed (undecodable ... option)": an option value one of the parsers refused is never ignored
